@@ -135,6 +135,8 @@ def check_copy(res, iv, bounds, comp, rechunk, tr):
         if md and comp and md["compressor"] != comp:
             res.violation("copy:compressor", f"destination metadata says {md['compressor']}, requested {comp}", case)
         res.add_set("copy_nchunks", len(ch))
+        if rechunk:
+            res.add_set("copy_rechunked_nchunks", (tr, len(ch)))
 
 
 def check_rechunker(res, iv, bounds, comp, tr, parallel, replace, sched_runner=None):
@@ -182,7 +184,7 @@ def check_rechunker(res, iv, bounds, comp, tr, parallel, replace, sched_runner=N
     md = md_vs_files(res, dest, s.ref["mp"], case, "rechunker")
     if md and comp and md["compressor"] != comp:
         res.violation("rechunker:compressor", f"metadata says {md['compressor']}, requested {comp}", case)
-    res.add_set("rechunker_nchunks", len(ch))
+    res.add_set("rechunker_nchunks", (tr, len(ch)))
 
 
 def check_rechunk_on_load(res, iv, bounds, size_rows, workers):
@@ -319,16 +321,27 @@ def run_job(job):
             rols = [(a, w) for a in (1, 2) for w in (None, 2)]
             grps = list(groupings(nchunks)) if nchunks <= 4 else []
         nt = bool(iv) and nchunks >= 2
+        # the same layout with doubled coordinates: every gap between rows then exceeds the rechunker's minimum split gap
+        # (1000 ns), so the rechunking paths really produce several output chunks
+        iv2, b2 = tuple((2 * a, 2 * e) for a, e in iv), tuple(2 * x for x in b)
         for c in copies:
             res.evals += 1
             if nt:
                 res.nt("copy", iv, b, c)
             check_copy(res, iv, b, *c)
+            if c[1] and len(iv) >= 2:
+                res.evals += 1
+                res.nt("copy2", iv, b, c)
+                check_copy(res, iv2, b2, *c)
         for c in rcs:
             res.evals += 1
             if nt:
                 res.nt("rechunker", iv, b, c)
             check_rechunker(res, iv, b, *c)
+            if len(iv) >= 2:
+                res.evals += 1
+                res.nt("rechunker2", iv, b, c)
+                check_rechunker(res, iv2, b2, *c)
         for c in rols:
             res.evals += 1
             if nt:
@@ -367,8 +380,11 @@ def replay(case):
 
 
 def sanity(total, tier):
-    for k in ("copy_nchunks", "rechunker_nchunks", "rol_nchunks"):
+    for k in ("copy_nchunks", "rechunker_nchunks", "rol_nchunks", "copy_rechunked_nchunks"):
         if len(total.sets.get(k, ())) < 2:
             return f"{k}: layouts never changed"
+    for k in ("rechunker_nchunks", "copy_rechunked_nchunks"):
+        if not any(n >= 2 for tr, n in total.sets.get(k, ())):
+            return f"{k}: rechunking never produced more than one chunk"
     if total.counters.get("per_chunk_groupings", 0) < 20:
         return "too few per-chunk groupings"
